@@ -510,6 +510,23 @@ pub fn volume_cases(thorough: bool) -> Vec<Case> {
         .collect()
 }
 
+/// Many long logs in one run: 12 (thorough: also 24) tasks, each writing 150-170 KB per stream,
+/// so that `log show` has 24 / 48 archives of some length to print one after the other.
+pub fn wide_show_cases(thorough: bool) -> Vec<Case> {
+    let ns: &[usize] = if thorough { &[12, 24] } else { &[12] };
+    ns.iter()
+        .map(|&n| {
+            let mut streams = vec![];
+            for i in 0..n {
+                streams.push(vec![Step::F { total: 150_000 + i * 1_111, line: 64, tag: 300 + 2 * i as u32 }]);
+                streams.push(vec![Step::F { total: 160_000 + i * 777, line: 80, tag: 301 + 2 * i as u32 }]);
+            }
+            // (low bits set: no lingering processes; no slow compressor, no listener)
+            Case { streams, rng_seed: 0x00FF_FFFF_FFFF | (1 << 40) | (1 << 50) }
+        })
+        .collect()
+}
+
 pub fn golden() -> Vec<Case> {
     vec![
         Case {
@@ -548,6 +565,7 @@ non-trivial = a pause >= 500 ms inside a line, a line > 64 KiB, binary data, or 
     ctx.drive_all("volume-inproc", volume_cases(ctx.thorough()), "1-16 MiB (thorough: 32 MiB) written at once, as 100-byte lines and as one unterminated line", check_inproc);
     ctx.drive_all("golden-cli", golden(), "golden regression cases (real time)", check_cli);
     ctx.drive_all("repeated-command-cli", repeat_cases(), "one invocation executing the same command twice for a target (-c c0 c1 c0, or a sequence plus -c), the executions writing 2 KB-300 KB and one line", check_repeat);
+    ctx.drive_all("wide-show-cli", wide_show_cases(ctx.thorough()), "12 (thorough: 24) tasks with 150-170 KB per stream: `log show` over 24 / 48 long archives", check_cli);
     ctx.drive_all("volume-cli", volume_cases(ctx.thorough()), "1-16 MiB (thorough: 32 MiB) written at once by a helper process", check_cli);
     let n2 = ctx.n(80, 500);
     ctx.drive("cli", || strategy(3, 6), n2, check_cli);
